@@ -878,6 +878,21 @@ func GenK(t *rapid.T, prop string) *KCase {
 	if rapid.Bool().Draw(t, "addd1") {
 		steps = append(steps, KStep{K: "add", P: "d1"})
 	}
+	// nested watched directory: a subdirectory of d0 that the user adds as well
+	nested := ""
+	if filepath.Clean(d0) == "d0" && rapid.IntRange(0, 3).Draw(t, "nested") == 0 {
+		var subs []string
+		for p, k := range kind {
+			if k == 'd' && strings.HasPrefix(p, "d0/") && strings.Count(p, "/") == 1 {
+				subs = append(subs, p)
+			}
+		}
+		sort.Strings(subs)
+		if len(subs) > 0 {
+			nested = rapid.SampledFrom(subs).Draw(t, "nesteddir")
+			steps = append(steps, KStep{K: "add", P: engine.P(nested)})
+		}
+	}
 	d0pre := filepath.Clean(d0)
 	spell := func(p string) string { // path as used in fs ops: real names
 		return p
@@ -920,6 +935,36 @@ func GenK(t *rapid.T, prop string) *KCase {
 		}
 		r := rapid.IntRange(0, 99).Draw(t, "op")
 		var s KStep
+		if nested != "" && kind[nested] == 'd' && rapid.IntRange(0, 3).Draw(t, "innested") == 0 {
+			// activity inside (or into) the nested watched directory
+			np := nested + "/" + rapid.SampledFrom([]string{"n1", "n2", "in"}).Draw(t, "nname")
+			switch rapid.IntRange(0, 4).Draw(t, "nop") {
+			case 0:
+				s = KStep{K: "create", P: engine.P(np)}
+			case 1:
+				s = KStep{K: "write", P: engine.P(np)}
+			case 2:
+				s = KStep{K: "unlink", P: engine.P(np)}
+			case 3: // move a file of the parent into the nested directory
+				s = KStep{K: "rename", P: engine.P(existing("nmv", isFile)), Q: engine.P(np)}
+				delete(kind, string(s.P))
+			default: // and out again
+				s = KStep{K: "rename", P: engine.P(np), Q: engine.P(fresh("nout"))}
+				if _, ok := kind[string(s.Q)]; !ok {
+					kind[string(s.Q)] = 'f'
+				}
+			}
+			steps = append(steps, s)
+			if inBurst > 0 {
+				inBurst--
+				if inBurst == 0 {
+					steps = append(steps, KStep{K: "sync"})
+				}
+			} else {
+				steps = append(steps, KStep{K: "sync"})
+			}
+			continue
+		}
 		switch {
 		case r < 18:
 			p := fresh("cr")
